@@ -19,6 +19,12 @@ def gen_tables(rng, profile):
     elif profile == "faults":
         kinds = [rng.weighted([("playable", 4), ("refuse", 2), ("nouri", 1), ("raises", 1), ("nobackend", 1)])
                  for _ in range(NTRACKS)]
+    elif profile == "settledf" and rng.random() < 0.3:
+        # mostly dead: one or two playable tracks among unplayable ones
+        dead = rng.choice(["refuse", "nouri", "raises", "nobackend"])
+        kinds = [dead] * NTRACKS
+        for _ in range(rng.choice([1, 1, 2])):
+            kinds[rng.randrange(NTRACKS)] = "playable"
     elif profile == "settledf":
         # settled schedules over a tracklist with some unplayable entries (C03: skipping)
         kinds = [rng.weighted([("playable", 6), ("refuse", 1.5), ("nouri", 0.5), ("raises", 0.5), ("nobackend", 0.5)])
@@ -125,6 +131,9 @@ def gen_op(rng, sim, weights):
     if k == "slice":
         return ["slice", gen_pos(rng, n, 0.6), gen_pos(rng, n, 0.6)]
     if k == "index":
+        if rng.random() < 0.35:
+            # by object: an entry, an impostor with an entry's tlid and URI, or something else
+            return ["indexof", max(1, sim.some_tlid(rng, 0.9)), rng.randrange(NTRACKS), rng.random() < 0.4]   # a TlTrack object has tlid >= 1
         return ["index", None if rng.random() < 0.3 else sim.some_tlid(rng)]
     if k == "setmode":
         return ["setmode", rng.randrange(4), rng.random() < 0.6]
@@ -262,19 +271,54 @@ def generate_and_run(rng, profile, max_client_ops=None):
                     do(gen_op(rng, sim, weights))
                 if rng.random() < 0.5:
                     settle()
+        if profile == "settledf" and kinds.count("playable") <= 2 and rng.random() < 0.6:
+            # a lonely playable entry among dead ones, random + repeat: every pass has to come back
+            # to it, however the order falls (the retry budget must cover the rest of this pass and
+            # the next pass up to the playable entry)
+            good = [k for k in range(NTRACKS) if kinds[k] == "playable"]
+            dead_ones = [k for k in range(NTRACKS) if kinds[k] != "playable"]
+            if good and dead_ones:
+                do(["clear"])
+                ks = [rng.choice(dead_ones) for _ in range(rng.randint(1, 4))]
+                ks.insert(rng.randint(0, len(ks)), good[0])
+                do(["add", ks, None])
+                for which in (1, 2):
+                    if not runner.trace[-1]["modes"][which]:
+                        do(["setmode", which, True])
+                tl_now = runner.core.tracklist.get_tl_tracks()
+                target = next((e.tlid for e in tl_now if runner.env.index_of_uri(e.track.uri) == good[0]), None)
+                if target is not None:
+                    do(["play", target])
+                    settle()
+                    for _ in range(rng.randint(2, 4)):
+                        do(["geteot"])
+                        do([rng.choice(["atf", "atf", "next"])])
+                        settle()
         if profile == "settledf" and rng.random() < 0.35:
             # walk through a whole pass with next(): the end of a (random) pass over a list with
             # unplayable entries
             if rng.random() < 0.7 and not runner.core.tracklist.get_random():
                 do(["setmode", 1, True])
+            if rng.random() < 0.5 and not runner.core.tracklist.get_repeat():
+                do(["setmode", 2, True])
             do(["play", None])
             settle()
-            for _ in range(sim.n + 1):
-                do(["getnext"])
-                do(["next"])
+            by_end_of_track = rng.random() < 0.5
+            for _ in range(sim.n + 1 + (sim.n if by_end_of_track else 0)):
+                if by_end_of_track:
+                    do(["geteot"])
+                    do(["atf"])
+                else:
+                    do(["getnext"])
+                    do(["next"])
                 settle()
         for _ in range(nops):
             op = gen_op(rng, sim, weights)
+            if op[0] == "indexof" and rng.random() < 0.75:
+                ents = runner.core.tracklist.get_tl_tracks()
+                if ents:
+                    e = rng.choice(ents)
+                    op = ["indexof", e.tlid, runner.env.index_of_uri(e.track.uri), op[3]]
             if is_settled:
                 if op[0] == "seek" and rng.random() < 0.85:
                     op = ["seek", rng.choice([0, 1, 500, 999, 1000])]
